@@ -16,6 +16,7 @@ RULE = ('(a) assume-guarantee per operator: every mux operator of rxsci.operator
         'automaton (live-key set per boundary) runs on EVERY MuxObservable boundary, including those inside composite operators, '
         'through a patched rx.pipe. Non-trivial = execution with >= 2 boundaries and >= 2 key lifetimes; states = distinct '
         '(boundary count, store snapshot) pairs; transitions = events seen by all boundary automata.')
+DEEP_PROBES = ('150 live groups through every higher-order operator; roll(260,130), roll(300,300), roll(257,256); the same pipeline object subscribed twice (after completion / after on_error); a well-formed prefix followed by one unhandled mux error')
 ASSUMPTIONS = ['the environment itself is well-formed and carries no mux errors except for the error handlers',
                'the joining half of higher-order operators is checked with a spanning set of inner tail behaviours {streaming, '
                'silent, expanding, completion burst, mixed}, cross-checked by the nested enumeration (b)',
